@@ -22,6 +22,10 @@ def generate(tier, rng):
             for i in range(total):
                 ident = IDENTS[(i + k) % len(IDENTS)] + ('' if i < len(IDENTS) else str(i))
                 v = VSpec(ident=ident + 'abcdefghijklmnopq'[i % 17].upper())
+                if k % 4 == 1:
+                    v.discr = 100 - 7 * i   # declaration order is the table's order, whatever the discriminants say
+                elif k % 4 == 3 and i % 2 == 0:
+                    v.discr = [40, 3, 22, 1, 60][(i // 2) % 5] + i
                 if pl == 'first':
                     v.dis = i == 0
                 elif pl == 'last':
